@@ -25,6 +25,8 @@ type ShardResult struct {
 	Paths           int // paths owned by this shard and run to the end
 	PathsOther      int
 	Decisions       int
+	FastDecisions   int // feasibility decided by exact byte-domain reasoning (no solver call)
+	ModelDecisions  int // feasibility witnessed by the current model (no solver call)
 	Queries         int
 	SolverUnknown   int
 	SolverErrors    []string
@@ -58,12 +60,15 @@ func newShardResult(h string, shard, n int) *ShardResult {
 }
 
 func (x *Exec) explore(entry *ssa.Function) {
-	x.work = [][]int{{}}
+	x.work = []workItem{{}}
 	x.seenViol = map[string]int{}
 	timedOut := false
 	for len(x.work) > 0 && !timedOut {
-		x.prefix = x.work[len(x.work)-1]
+		x.prefix = x.work[len(x.work)-1].prefix
+		x.model = x.work[len(x.work)-1].model
 		x.work = x.work[:len(x.work)-1]
+		x.dom = map[*Term]bitset{}
+		x.entangled = map[*Term]bool{}
 		x.pc = x.pc[:0]
 		x.decision = x.decision[:0]
 		x.steps = 0
@@ -76,6 +81,7 @@ func (x *Exec) explore(entry *ssa.Function) {
 		x.rangeSite, x.rangeCount = -1, 0
 		x.frames = x.frames[:0]
 		x.owned = true
+		x.failWhere = ""
 		x.nvars = 0
 		func() {
 			defer func() {
@@ -91,7 +97,7 @@ func (x *Exec) explore(entry *ssa.Function) {
 						} else {
 							x.res.Inconclusive[r.why]++
 							if _, ok := x.res.InconclusiveEx[r.why]; !ok {
-								x.res.InconclusiveEx[r.why] = x.where()
+								x.res.InconclusiveEx[r.why] = x.failWhere
 							}
 						}
 					case timeoutAbort:
@@ -104,7 +110,7 @@ func (x *Exec) explore(entry *ssa.Function) {
 						x.res.Inconclusive[why]++
 						if _, ok := x.res.InconclusiveEx[why]; !ok {
 							st := string(debug.Stack())
-							x.res.InconclusiveEx[why] = x.where() + "\n" + st
+							x.res.InconclusiveEx[why] = x.failWhere + "\n" + st
 						}
 					}
 				}
